@@ -190,7 +190,9 @@ class Grid(object):
             self.center_(center)
             with torch.no_grad():
                 origin = cat_scalars(origin, num=self.ndim, dtype=self.dtype, device=self.device)
-                if not torch.allclose(origin, self.origin()):
+                # Absolute tolerance relative to magnitude of the terms the origin is computed from
+                atol = 1e-5 * max(self._center.abs().max().item(), self.extent().max().item())
+                if not torch.allclose(origin, self.origin(), atol=atol):
                     raise ValueError("Grid() 'center' and 'origin' are inconsistent")
         # Default align_corners option argument for grid resizing operations
         self._align_corners = bool(align_corners)
